@@ -93,6 +93,7 @@ func (k Keeper) SwapByDenom(ctx sdk.Context, msg *types.MsgSwapByDenom) (*types.
 				Routes:           route,
 				TokenInMaxAmount: msg.MaxAmount.Amount,
 				TokenOut:         msg.Amount,
+				Recipient:        msg.Recipient,
 			},
 		)
 		if err != nil {
